@@ -1,6 +1,6 @@
 \* thorough rows
 CONSTANTS
-  Lifetimes = {50 * i : i \in 1..400} \cup {1333, 1334, 2001, 2666, 2667, 3600000}
+  Lifetimes <- LifetimesG
   Dev_RenewFloorSeconds = FALSE
   L = 2000
   Step = 500
